@@ -387,10 +387,84 @@ def r5_recursive_shape(repo=None):
     return r
 
 
+def r6_list_edges(repo=None, rid="C12.R6"):
+    """is_edge is decided by position in the candidate list (C12.R2), which is sound only if the list starts with the file that
+    contains the start of the range and ends with the file that contains its end."""
+    from . import c13
+    from .. import pysym
+    r = Rule(rid, "the candidate file list starts at the file holding the range start and ends at the file holding its end")
+    m = pyfront.mod("digital_metadata", repo)
+    rf = m.fn(R + "._get_file_list")
+    q = R + "._get_file_list"
+    params, rloop, forms = c13._reader_forms(m, rf)
+    env = pysym.seq_env(rf.body, stop=rloop)
+    cad = None
+    arr = None
+    for n in ast.walk(rloop):
+        if isinstance(n, ast.Assign) and isinstance(n.value, ast.Call) and pyfront.call_name(n.value) in ("np.arange", "numpy.arange", "range") \
+                and len(n.value.args) == 3 and isinstance(n.targets[0], ast.Name):
+            arr = n.targets[0].id
+            cad = pysym.canon(pysym.subst(n.value.args[2], env))
+    if arr is None or cad is None or cad[0] != "leaf":
+        raise AnalysisError("%s: the array of candidate file timestamps (np.arange(start, stop, file cadence)) not recognised" % q)
+    cname = cad[1]
+    # the bound of each end of the range: a local derived from the parameter and floored to a multiple of the file cadence
+    edge_vars = {}
+    for p_ in params:
+        al = [n for n, c in forms[p_].items() if c[0] == "mul" and len(c[1]) == 2 and ("leaf", cname) in c[1] and any(
+            x[0] == "fdiv" and ("leaf", cname) in x[2] for x in c[1])]
+        if len(al) != 1:
+            raise AnalysisError("%s: the bound derived from `%s` and floored to the file cadence was not found (candidates %s)" % (
+                q, p_, sorted(forms[p_])))
+        edge_vars[p_] = al[0]
+    want = {params[0]: ("lower", {(0, 0), (-1, 1)}), params[1]: ("upper", {(0, 0), (1, -1)})}
+    for p_, (side, allowed) in want.items():
+        ev_ = edge_vars[p_]
+        cmps = [n for n in ast.walk(rloop) if isinstance(n, ast.Compare) and len(n.ops) == 1 and any(
+            isinstance(x, ast.Name) and x.id == ev_ for x in ast.walk(n)) and any(isinstance(x, ast.Name) and x.id == arr for x in ast.walk(n))]
+        if len(cmps) != 1:
+            raise AnalysisError("%s: comparison of `%s` with `%s` not found exactly once" % (q, arr, ev_))
+        c = cmps[0]
+        keep = {k: v for k, v in env.items() if k not in (ev_, arr)}
+        lf, rg = pysym.linform(c.left, keep), pysym.linform(c.comparators[0], keep)
+        if lf is None or rg is None:
+            raise AnalysisError("%s: `%s` is not linear" % (q, norm(ast.unparse(c))))
+        d = dict(lf)
+        for k, v in rg.items():
+            d[k] = d.get(k, 0) - v          # d = left - right
+        op = type(c.ops[0]).__name__
+        xa, xe = d.get(arr, 0), d.get(ev_, 0)
+        others = {k: v for k, v in d.items() if k not in (arr, ev_, cname, 1) and v != 0}
+        if others or {xa, xe} != {1, -1}:
+            raise AnalysisError("%s: `%s` has an unexpected form" % (q, norm(ast.unparse(c))))
+        # normalise to  arr  OP  edge + a*c + b   (move everything but arr to the right, sign by arr's coefficient)
+        a_, b_ = -d.get(cname, 0) * xa, -d.get(1, 0) * xa
+        if xa < 0:
+            op = {"GtE": "LtE", "LtE": "GtE", "Gt": "Lt", "Lt": "Gt"}.get(op, op)
+        if op == "Gt":
+            op, b_ = "GtE", b_ + 1
+        if op == "Lt":
+            op, b_ = "LtE", b_ - 1
+        okop = "GtE" if side == "lower" else "LtE"
+        text = "%s %s %s%s%s" % (arr, ">=" if op == "GtE" else "<=" if op == "LtE" else op, ev_,
+                                 (" %+d*%s" % (a_, cname)) if a_ else "", (" %+d" % b_) if b_ else "")
+        if op == okop and (a_, b_) in allowed:
+            r.ok("%s:%s %s `%s`" % (m.rel, c.lineno, q, norm(ast.unparse(c))), "equivalent to %s %s %s for timestamps that are "
+                 "multiples of the file cadence: the list %s with the file holding %s" % (arr, ">=" if side == "lower" else "<=", ev_,
+                                                                                         "starts" if side == "lower" else "ends", p_))
+        else:
+            r.violation(m.rel, q, "candidate filter `%s` (i.e. %s)" % (norm(ast.unparse(c)), text), "the candidate list can %s a file "
+                        "%s the one that holds `%s`: read() switches the range filter off for every file that is not first or last "
+                        "in the list, so samples outside the requested range are returned (or wanted ones are skipped)" % (
+                            "begin with" if side == "lower" else "end with", "before" if side == "lower" else "after", p_), line=c.lineno)
+    r.guard(2)
+    return r
+
+
 def rules(repo=None):
     from . import c13
     return [lambda: r1_append_and_refuse(repo), lambda: r2_range_filter(repo), lambda: r3_numeric_key_order(repo),
-            lambda: c13.r1_exact_placement(repo, rid="C12.R4"), lambda: r5_recursive_shape(repo)]
+            lambda: c13.r1_exact_placement(repo, rid="C12.R4"), lambda: r5_recursive_shape(repo), lambda: r6_list_edges(repo)]
 
 
 EXPLANATION = (
